@@ -90,10 +90,12 @@ def check_selectors(rep, fl, rule="R02.1"):
     e = norm(return_expr(lb))
     ok = is_call(e, "Iterator::sum") and is_call(e[2][0], "Iterator::map") and is_call(e[2][0][2][0], "iter") and norm(e[2][0][2][0][2][0]) == norm(F(V("self"), "shards"))
     if ok:
-        cl = closure_of_call(lb, [t for _, t in calls_to(lb, "Iterator::map")][0])
-        cb = facts.closure_body(cl[0][1])
+        ca = callable_arg(facts, lb, [t for _, t in calls_to(lb, "Iterator::map")][0], 1)
+        ok = ca is not None
+    if ok:
+        cb, p1 = ca
         ce = norm(return_expr(cb))
-        ok = is_call(ce, "HashMap::len") and is_call(ce[2][0], "RwLock::read") and ce[2][0][2][0] == V(cb.local_name.get(2, "arg2"))
+        ok = is_call(ce, "HashMap::len") and is_call(ce[2][0], "RwLock::read") and ce[2][0][2][0] == V(cb.local_name.get(p1, "arg%d" % p1))
     rep.check(ok, "R06.6", fl, lb, "len", "len() sums the sizes of all shards", "len() is %s" % show(e))
 
 
@@ -213,25 +215,39 @@ def strip_unwrap(e):
 
 def check_get_ttl(rep, fl):
     """R03.2: Cache::get_ttl reports a TTL only through store.get (expiry- and conflict-checked)."""
-    b = fl.cache_fn("get_ttl")
     facts = fl.facts
-    e = norm(return_expr(b))
+    b = facts.flat(fl.cache_fn("get_ttl"))
     store = norm(F(V("self"), "store"))
-    ok = is_call(e, "Option::and_then") and is_call(e[2][0], "ShardedMap::get") and norm(e[2][0][2][0]) == store
-    detail = show(e)
+    gets = calls_to(b, SM + "::get")
+    exps = calls_to(b, SM + "::expiration")
+    ttls = calls_to(b, TIME + "::get_ttl")
+    bk = calls_to(b, "KeyBuilder::build_key")
+    ok = len(gets) == 1 and len(exps) == 1 and len(ttls) == 1 and len(bk) == 1 and norm(b.call_args(bk[0][1])[1]) == V("key")
+    detail = "store.get x%d, store.expiration x%d, Time::get_ttl x%d" % (len(gets), len(exps), len(ttls))
     if ok:
-        ga = e[2][0][2]
-        bk = calls_to(b, "KeyBuilder::build_key")
-        ok = len(bk) == 1 and norm(b.call_args(bk[0][1])[1]) == V("key")
-        bke = norm(b.call_expr(bk[0][1], True)) if ok else None
-        ok = ok and norm(ga[1]) == ("field", bke, "0") and norm(ga[2]) == ("field", bke, "1")
-        cb = facts.closure_body(e[2][1][1])
-        ce = in_parent_terms(facts, cb, return_expr(cb))
-        ok = ok and is_call(ce, "Option::map") and is_call(ce[2][0], "ShardedMap::expiration") and norm(ce[2][0][2][0]) == store and norm(ce[2][0][2][1]) == ("field", bke, "0")
-        if ok:
-            cb2 = facts.closure_body(ce[2][1][1])
-            c2 = norm(return_expr(cb2))
-            ok = is_call(c2, "Time::get_ttl") and c2[2][0] == V(cb2.local_name.get(2, "arg2"))
+        bke = norm(b.call_expr(bk[0][1], True))
+        ga = [norm(b.expand(norm(x))) for x in b.call_args(gets[0][1])]
+        ea = [norm(b.expand(norm(x))) for x in b.call_args(exps[0][1])]
+        gres = norm(b.call_expr(gets[0][1], True))
+        eres = norm(b.call_expr(exps[0][1], True))
+        ok = ga[0] == store and ga[1] == ("field", bke, "0") and ga[2] == ("field", bke, "1") and ea[0] == store and ea[1] == ("field", bke, "0")
+        ta = norm(b.expand(norm(b.call_args(ttls[0][1])[0])))
+        ok = ok and ta == ("field", ("downcast", eres, "Some"), "0")
+        at, entry = dataflow(b)
+        # the deadline is read (and reported) only when the expiry- and conflict-checked lookup found the entry
+        good, cx = all_states(b, at, (exps[0][0], term_idx(b, exps[0][0])), A(("variant", gres, "Some")), hist=True)
+        ok = ok and good
+        # every Some(..) that reaches the return carries that get_ttl result
+        tres = norm(b.call_expr(ttls[0][1], True))
+        import props_sibling
+        for leaf in props_sibling.ret_leaves(b):
+            if leaf[0] == "agg" and leaf[2].endswith("Option::Some"):
+                ok = ok and norm(b.expand(leaf[3][0])) == tres
+            elif leaf[0] == "agg" and leaf[2].endswith("Option::None"):
+                pass
+            else:
+                ok = ok and leaf == gres and False
+        detail = "lookup args %s, deadline of %s, reported %s" % ([show(x) for x in ga[1:]], show(ea[1]), show(ta))
     rep.check(ok, "R03.2", fl, b, "get_ttl", "get_ttl(key) = store.get(index, conflict).and_then(|_| store.expiration(index).map(Time::get_ttl)) with (index, conflict) = build_key(key)",
               "get_ttl no longer goes through the expiry-checked lookup of the same key: %s" % detail)
 
@@ -304,7 +320,43 @@ def check_ttl_plumbing(rep, fl):
                   "%s passes ttl=%s only_update=%s" % (meth, show(ttl_a), show(a[5]) if len(a) > 5 else "-"), loc=tgt[1]["sp"])
 
 
-def check_store_writes(rep, fl):
+def keep_aspects(rep, fl, fn, table, prop=None):
+    """Run rule function `fn` and keep the instances whose rule id the property `prop` (default: the one
+    being checked) rests on, according to `table`; anchors that went missing are always kept."""
+    from framework import Report
+    prop = prop or rep.prop
+    want = table.get(prop)
+    if want is None:
+        return fn(rep, fl)
+    tmp = Report(rep.prop, rep.tier)
+    try:
+        fn(tmp, fl)
+    finally:
+        rep.instances.extend(i for i in tmp.instances if i.rule in want or i.verdict == "anchor-missing")
+        rep.notes.extend(tmp.notes)
+
+
+# which store-write obligations a property rests on (rule ids of _store_writes_all): a check reports only
+# what is a necessary condition of its own property, so that e.g. a change that loses the new
+# deadline of an update alarms C03 / C05 / C04 but not C02 or C18
+STORE_WRITE_ASPECTS = {
+    "C02": {"R02.4", "R02.5", "R09.2", "R18.3"},           # value swapped in place, right outcome, guards, same key
+    "C03": {"R03.5"},                                       # the new deadline is installed
+    "C04": {"R02.4", "R02.5", "R03.5", "R04.4", "R05.2", "R09.2", "R18.3", "R08.2"},  # exact map: everything
+    "C05": {"R03.5", "R05.2"},                              # stored deadline and expiry index move together
+    "C08": {"R02.4", "R08.2", "R09.2"},                     # old value comes back out, refused value handed back
+    "C09": {"R09.2", "R02.5", "R03.5"},                     # guards, outcomes; TTL untouched on veto
+    "C18": {"R18.3", "R09.2", "R02.5"},                     # same key, conflict test before every write
+}
+
+
+def check_store_writes(rep, fl, prop=None):
+    """Runs the store-write obligations and keeps those the property `prop` (default: the property being
+    checked) rests on."""
+    return keep_aspects(rep, fl, _store_writes_all, STORE_WRITE_ASPECTS, prop)
+
+
+def _store_writes_all(rep, fl):
     """R03.5 / R09.2 / R02.4 / R18.3: mutations in store.try_update / try_insert happen only after
     the conflict test and the validator agreed; the Update path installs value and deadline."""
     facts = fl.facts
@@ -343,8 +395,10 @@ def check_store_writes(rep, fl):
     rep.check(okew, "R03.5", fl, b, "item.expiration = expiration", "an update replaces the stored deadline by the new one",
               "store.try_update does not install the new deadline: a re-inserted key keeps its old TTL")
     upd = agg_nodes(b, "store::UpdateResult", "Update")
-    okup = len(upd) == 1 and sw and ew and block_dominates(b, sw[0][0], upd[0][0]) and block_dominates(b, ew[0][0], upd[0][0]) and upd[0][3][3][0] == val
-    rep.check(bool(okup), "R02.4", fl, b, "Update(val)", "Update(old value) is returned only after the swap and the deadline write", "the Update result is built without swap / deadline write")
+    okup = len(upd) == 1 and sw and block_dominates(b, sw[0][0], upd[0][0]) and upd[0][3][3][0] == val
+    rep.check(bool(okup), "R02.4", fl, b, "Update(val)", "Update(old value) is returned only after the swap", "the Update result is built without the swap: the resident value is not replaced (or the old value is lost)")
+    okud = len(upd) == 1 and ew and block_dominates(b, ew[0][0], upd[0][0])
+    rep.check(bool(okud), "R03.5", fl, b, "Update after deadline write", "Update is returned only after the new deadline was stored", "an update can return without storing the new deadline: the entry keeps its old TTL")
     emu = calls_to(b, EM + "::try_update")
     okem = len(emu) == 1
     if okem:
@@ -434,11 +488,8 @@ def check_buckets(rep, fl):
     e = norm(return_expr(sb))
     want = norm(("cast", "i64", ("bin", "Add", call(TIME + "::unix", t), ("const", 1, "u64"))))
     rep.check(e == want, "R05.1", fl, sb, "storage_bucket", "storage_bucket(t) = unix(t) + 1", "storage_bucket(t) = %s" % show(e))
-    cb_ = facts.body("ttl::cleanup_bucket")
-    e = norm(return_expr(cb_))
-    want = norm(("bin", "Sub", call("ttl::storage_bucket", t), ("const", 1, "i64")))
-    rep.check(e == want, "R05.1", fl, cb_, "cleanup_bucket", "cleanup_bucket(now) = storage_bucket(now) - 1: a bucket is due only after every deadline filed in it has passed",
-              "cleanup_bucket(now) = %s" % show(e))
+    # cleanup_bucket(now) = storage_bucket(now) - 1 is spliced into its caller (core.ALWAYS_INLINE): R05.5 compares
+    # the buckets with that expression in ExpirationMap::try_cleanup
     ux = facts.body(TIME + "::unix")
     e = norm(return_expr(ux))
     ok = is_call(e, "Duration::as_secs") and is_call(strip_unwrap(e[2][0]), "Result::map") and is_call(strip_unwrap(e[2][0])[2][0], "SystemTime::duration_since") \
@@ -557,7 +608,8 @@ def check_em_cleanup(rep, fl):
     facts = fl.facts
     b = facts.body(EM + "::try_cleanup")
     bodies = descendants(facts, b)
-    cb_now = call("ttl::cleanup_bucket", V("now"))
+    # a bucket is due only after every deadline filed in it has passed: one behind the storage bucket
+    cb_now = norm(("bin", "Sub", call("ttl::storage_bucket", V("now")), ("const", 1, "i64")))
     scans = []
     removals = []
     points = []
@@ -617,7 +669,20 @@ def sweeper_body(fl):
     raise AnchorMissing("%s: no call to store.try_remove" % fl.cleanup)
 
 
-def check_sweeper(rep, fl):
+# which sweeper obligations a property rests on: R05.6 = who is swept and when (the re-check on the stored
+# deadline, the due set, the conflict passed on), R06.4 = charge and entry go together, R16.5 = the cost
+# reported is the charge read before its release, R08.2 = the value reported is the removed one
+SWEEPER_ASPECTS = {
+    "C03": {"R05.6"}, "C04": {"R05.6", "R06.4"}, "C05": {"R05.6", "R06.4", "R16.5", "R08.2"}, "C06": {"R06.4"}, "C11": {"R05.6"},
+    "C16": {"R16.5"}, "C08": {"R08.2", "R06.4"}, "C09": {"R05.6"},
+}
+
+
+def check_sweeper(rep, fl, prop=None):
+    return keep_aspects(rep, fl, _sweeper_all, SWEEPER_ASPECTS, prop)
+
+
+def _sweeper_all(rep, fl):
     """R05.6 (+ R03.6, R04.3, R06.4, R16.5)."""
     facts = fl.facts
     root, x = sweeper_body(fl)
@@ -688,9 +753,9 @@ def check_sweeper(rep, fl):
         ce_ = norm(x.expand(norm(cost_e)))
         okcost = cost_l is not None and (norm(cost_e) == cost_l or (is_call(ce_, fl.policy + "::cost") and norm(x.expand(ce_[2][1])) == norm(x.expand(k))))
         okexp = norm(exp_e) == tvar or norm(x.expand(norm(exp_e))) == norm(x.expand(tvar))
-        oki = okv and okcost and okexp
-        rep.check(oki, "R05.6", fl, y, "evicted item", "the swept entry is reported with its value, the charged cost read before release and its deadline",
-                  "swept item is built as val=%s cost=%s exp=%s" % (show(val_e), show(cost_e), show(exp_e)), loc=st["sp"])
+        rep.check(okv, "R08.2", fl, y, "evicted item: value", "the swept entry is reported with the value that was removed from the store", "swept item carries val=%s" % show(val_e), loc=st["sp"])
+        rep.check(okcost, "R16.5", fl, y, "evicted item: cost", "the swept entry is reported with the charged cost read before release", "swept item carries cost=%s" % show(cost_e), loc=st["sp"])
+        rep.check(okexp, "R05.6", fl, y, "evicted item: deadline", "the swept entry is reported with its stored deadline", "swept item carries exp=%s" % show(exp_e), loc=st["sp"])
     else:
         rep.bad("R05.6", fl, x, "evicted item", "expected one Item construction in the sweeper, found %d" % len(items))
     # the due set comes from em.try_cleanup(Time::now())
